@@ -16,34 +16,61 @@ use serde_json::{json, Value};
 
 use crate::suites::{self, group, GROUPS};
 
-fn parse_uses(svg: &str) -> (Vec<[f64; 6]>, Vec<[f64; 6]>) {
-    let mut mol = vec![];
-    let mut cell = vec![];
-    for part in svg.split("<use ").skip(1) {
-        let tag = match part.find("/>") {
+fn parse_uses(svg: &str) -> Vec<Vec<[f64; 6]>> {
+    // <use> elements grouped by what they refer to: the reference used most often is the shape
+    // (copies x images), the next one the cell outline; ids, attribute order and separators are
+    // not assumed
+    let mut by_ref: std::collections::BTreeMap<String, Vec<[f64; 6]>> = std::collections::BTreeMap::new();
+    for part in svg.split("<use").skip(1) {
+        let tag = match part.find('>') {
             Some(i) => &part[..i],
             None => continue,
         };
-        let m = match tag.find("matrix(") {
-            Some(i) => &tag[i + 7..],
+        let href = match tag.find("href=\"") {
+            Some(i) => tag[i + 6..].split('"').next().unwrap_or("").to_string(),
             None => continue,
         };
-        let m = match m.find(')') {
-            Some(i) => &m[..i],
-            None => continue,
+        let a = if let Some(i) = tag.find("matrix(") {
+            let m = &tag[i + 7..];
+            let m = match m.find(')') {
+                Some(i) => &m[..i],
+                None => continue,
+            };
+            let v: Vec<f64> = m.split(|c: char| c.is_whitespace() || c == ',').filter_map(|x| x.parse().ok()).collect();
+            if v.len() != 6 {
+                continue;
+            }
+            [v[0], v[1], v[2], v[3], v[4], v[5]]
+        } else if let Some(i) = tag.find("translate(") {
+            let m = &tag[i + 10..];
+            let m = match m.find(')') {
+                Some(i) => &m[..i],
+                None => continue,
+            };
+            let v: Vec<f64> = m.split(|c: char| c.is_whitespace() || c == ',').filter_map(|x| x.parse().ok()).collect();
+            [1., 0., 0., 1., *v.get(0).unwrap_or(&0.), *v.get(1).unwrap_or(&0.)]
+        } else {
+            [1., 0., 0., 1., 0., 0.]
         };
-        let v: Vec<f64> = m.split_whitespace().filter_map(|x| x.parse().ok()).collect();
-        if v.len() != 6 {
-            continue;
-        }
-        let a = [v[0], v[1], v[2], v[3], v[4], v[5]];
-        if tag.contains("href=\"#mol\"") {
-            mol.push(a);
-        } else if tag.contains("href=\"#cell\"") {
-            cell.push(a);
+        by_ref.entry(href).or_default().push(a);
+    }
+    by_ref.into_iter().map(|(_, v)| v).collect()
+}
+
+/// the drawing holds one group of <use> elements at `mol` and another one at `cell`
+fn uses_match(groups: &[Vec<[f64; 6]>], mol: &[[f64; 6]], cell: Option<&[[f64; 6]]>, tol: f64) -> (bool, bool) {
+    for (i, g) in groups.iter().enumerate() {
+        if multiset_eq(g, mol, tol) {
+            let cell_ok = match cell {
+                None => true,
+                Some(c) => groups.iter().enumerate().any(|(j, h)| j != i && multiset_eq(h, c, tol)),
+            };
+            if cell_ok {
+                return (true, true);
+            }
         }
     }
-    (mol, cell)
+    (groups.iter().any(|g| multiset_eq(g, mol, tol)), false)
 }
 
 fn multiset_eq(real: &[[f64; 6]], expect: &[[f64; 6]], tol: f64) -> bool {
@@ -210,14 +237,15 @@ pub fn svg(input: &str, out: &str) {
                 Some(s) => s,
                 None => continue,
             };
-            let (mol, cell) = parse_uses(&s);
-            uses_checked += mol.len();
-            if !multiset_eq(&mol, &exp_mol, tol) {
+            let groups = parse_uses(&s);
+            uses_checked += exp_mol.len();
+            let (mol_ok, cell_ok) = uses_match(&groups, &exp_mol, Some(&exp_cell), tol);
+            if !mol_ok {
                 failures.push(json!({"what": format!("SVG ({}) does not place the shape at the state's transforms and nearest images", kind),
-                    "state": e, "observed": {"uses": mol.len(), "expected": exp_mol.len(), "first": mol.get(0)}}));
+                    "state": e, "observed": {"use_groups": groups.iter().map(|g| g.len()).collect::<Vec<_>>(), "expected": exp_mol.len()}}));
                 break;
             }
-            if !multiset_eq(&cell, &exp_cell, tol) {
+            if !cell_ok {
                 failures.push(json!({"what": format!("SVG ({}) does not draw the cell at the lattice translations", kind), "state": e}));
                 break;
             }
@@ -228,6 +256,32 @@ pub fn svg(input: &str, out: &str) {
         "first_failures": failures.iter().take(10).collect::<Vec<_>>()}});
     let mut fo = fs::File::create(out).expect("out");
     writeln!(fo, "{}", res).unwrap();
+}
+
+/// The SVG of a state against the state itself: the shape drawn at every Cartesian placement
+/// translated by n A + m B for n, m in {-1, 0, 1}, the lattice vectors taken from the cell's
+/// parameters (A = (a, 0), B = a ratio (cos t, sin t)).
+fn svg_matches(svg: &str, placements: &[Transform2], cell: &Value) -> Result<(), String> {
+    let a = cell["length"].as_f64().ok_or("cell length")?;
+    let b = a * cell["ratio"].as_f64().ok_or("cell ratio")?;
+    let t = cell["angle"].as_f64().ok_or("cell angle")?;
+    let (av, bv) = ((a, 0.), (b * t.cos(), b * t.sin()));
+    let mut expect: Vec<[f64; 6]> = vec![];
+    for p in placements {
+        let m: Matrix3<f64> = (*p).into();
+        for n in -1..=1 {
+            for k in -1..=1 {
+                let (n, k) = (n as f64, k as f64);
+                expect.push([m[(0, 0)], m[(1, 0)], m[(0, 1)], m[(1, 1)], m[(0, 2)] + n * av.0 + k * bv.0, m[(1, 2)] + n * av.1 + k * bv.1]);
+            }
+        }
+    }
+    let groups = parse_uses(svg);
+    if !uses_match(&groups, &expect, None, 1e-9 * f64::max(1., 3. * a)).0 {
+        return Err(format!("SVG does not place the shape at the state's transforms and nearest lattice images ({:?} <use> elements, {} expected)",
+            groups.iter().map(|g| g.len()).collect::<Vec<_>>(), expect.len()));
+    }
+    Ok(())
 }
 
 /// JSON fidelity on finite parameter values off every grid (17 significant digits, tiny, huge,
@@ -322,18 +376,21 @@ pub fn json_random(out: &str, thorough: bool, seed: u64) {
                 if variant % 2 == 0 {
                     let st = PackedState::from_group(LineShape::polygon(4 + variant).unwrap(), &wg).map_err(|e| e.to_string())?;
                     roundtrip(&st, |s| s.cartesian_positions().collect())?;
+                    svg_matches(&st.as_svg().to_string(), &st.cartesian_positions().collect::<Vec<_>>(), &serde_json::to_value(&st.cell).map_err(|e| e.to_string())?)?;
                     let mut b = BuildOptimiser::default();
                     b.seed(variant as u64).steps(40).kt_start(0.);
                     let opt = b.build().optimise_state(st);
                     let txt = serde_json::to_string(&opt).map_err(|e| e.to_string())?;
                     let st2: PackedState<LineShape> = serde_json::from_str(&txt).map_err(|e| e.to_string())?;
                     roundtrip(&st2, |s| s.cartesian_positions().collect())?;
+                    svg_matches(&st2.as_svg().to_string(), &st2.cartesian_positions().collect::<Vec<_>>(), &serde_json::to_value(&st2.cell).map_err(|e| e.to_string())?)?;
                     if serde_json::to_string(&st2).map_err(|e| e.to_string())? != txt {
                         return Err("optimised state is not reproduced by its JSON".into());
                     }
                 } else {
                     let st = PotentialState::from_group(LJShape2::from_trimer(0.637556, 120., 1.), &wg).map_err(|e| e.to_string())?;
                     roundtrip(&st, |s| s.cartesian_positions().collect())?;
+                    svg_matches(&st.as_svg().to_string(), &st.cartesian_positions().collect::<Vec<_>>(), &serde_json::to_value(&st.cell).map_err(|e| e.to_string())?)?;
                 }
                 Ok(())
             }))
